@@ -406,6 +406,13 @@ pub fn get_bind_group_data(
                 binding_type,
                 address_space: global.space,
             };
+            #[cfg(feature = "verif")]
+            crate::verif::emit_detail(|| {
+                format!(
+                    "{{\"ev\":\"bgd.scan\",\"group\":\"{}\",\"binding\":\"{}\"}}",
+                    binding.group, binding.binding
+                )
+            });
             // Repeated bindings will probably cause a compile error.
             // We'll still check for it here just in case.
             if group
@@ -421,6 +428,11 @@ pub fn get_bind_group_data(
         }
     }
 
+    #[cfg(feature = "verif")]
+    crate::verif::emit_detail(|| {
+        let keys: Vec<String> = groups.keys().map(|k| format!("\"{k}\"")).collect();
+        format!("{{\"ev\":\"bgd.density\",\"groups\":[{}]}}", keys.join(","))
+    });
     // wgpu expects bind groups to be consecutive starting from 0.
     if groups.keys().map(|i| *i as usize).eq(0..groups.len()) {
         Ok(groups)
